@@ -1281,20 +1281,52 @@ func TestVerifC27(t *testing.T) {
 
 		seen[c.id] = true
 
-		if !r.Mine(i) || !r.Want(c.id) {
+		if !r.Mine(i) {
 			continue
 		}
 
-		if i%16 == 0 && r.Expired() {
+		if r.Expired() {
 			break
 		}
 
-		c27Check(t, r, enc, c)
+		// every case starts from an empty decoder cache (base.objcache)
+		c27FreshCache()
+
+		if r.Want(c.id) {
+			c27Check(t, r, enc, c, c27Variant{})
+		}
+
+		c27TimeVariants(t, r, enc, c)
+		c27CacheVariants(t, r, enc, c)
 	}
+
+	c27FreshCache()
 }
 
-func c27Check(t *testing.T, r *vlib.Run, enc *jsonenc.Encoder, c c27Case) {
-	x := c.build()
+// c27Variant: one more point of a dimension that is orthogonal to the shape of
+// the case (time values, decode history). The zero value is the plain case.
+type c27Variant struct {
+	id     string         // case id ("" = c.id)
+	prefix string         // prefix of counters and outcome classes ("" = the plain case)
+	sig    map[string]any // additional signature keys of a violation
+	build  func() any     // nil = c.build
+}
+
+func c27Check(t *testing.T, r *vlib.Run, enc *jsonenc.Encoder, c c27Case, v c27Variant) {
+	plain := v.prefix == ""
+	pf := v.prefix
+
+	if v.id != "" {
+		c.id = v.id
+	}
+
+	var x any
+	if v.build != nil {
+		x = v.build()
+	} else {
+		x = c.build()
+	}
+
 	ty := c.ht.Type().String()
 
 	if hr, ok := x.(hint.Hinter); ok && !hr.Hint().Equal(c.ht) {
@@ -1311,7 +1343,11 @@ func c27Check(t *testing.T, r *vlib.Run, enc *jsonenc.Encoder, c c27Case) {
 			sig["field"] = field
 		}
 
-		r.Outcome("violation:" + kind)
+		for k := range v.sig {
+			sig[k] = v.sig[k]
+		}
+
+		r.Outcome(pf + "violation:" + kind)
 		r.Violation(c.id, sig, fmt.Sprintf("%s: %s; encoded=%s", c.id, detail, vfxShort(b)), map[string]any{"case": c.id})
 	}
 
@@ -1319,7 +1355,7 @@ func c27Check(t *testing.T, r *vlib.Run, enc *jsonenc.Encoder, c c27Case) {
 	vx, dx := vfxValidity(x, vfxNID)
 	strict := vx == "valid" || vx == "n/a"
 
-	if vx == "panic" {
+	if vx == "panic" && plain {
 		r.Add("isvalid_panics_on_constructed."+ty, 1)
 		r.Sample(map[string]any{"case": c.id, "isvalid_panic": vfxShort([]byte(dx))})
 	}
@@ -1329,19 +1365,22 @@ func c27Check(t *testing.T, r *vlib.Run, enc *jsonenc.Encoder, c c27Case) {
 		if strict {
 			vio("encode-error", "", "valid object fails to encode: "+err.Error(), nil)
 		} else {
-			r.Outcome(vx + ":unencodable")
+			r.Outcome(pf + vx + ":unencodable")
 		}
 
 		return
 	}
 
-	r.Add("encoded_bytes", int64(len(b1)))
+	r.Add(pf+"encoded_bytes", int64(len(b1)))
 
 	nested := 0
 
 	c27Hints(b1, func(s string) {
 		nested++
-		r.Add("hint_occurrences."+s, 1)
+
+		if plain {
+			r.Add("hint_occurrences."+s, 1)
+		}
 	})
 
 	var y any
@@ -1358,7 +1397,12 @@ func c27Check(t *testing.T, r *vlib.Run, enc *jsonenc.Encoder, c c27Case) {
 
 		return
 	case err != nil:
-		r.Outcome(vx + ":undecodable")
+		r.Outcome(pf + vx + ":undecodable")
+
+		if !plain {
+			return
+		}
+
 		r.Sample(map[string]any{"case": c.id, "verdict": vx, "why": vfxShort([]byte(dx)), "decode_error": vfxShort([]byte(err.Error()))})
 
 		return
@@ -1366,7 +1410,7 @@ func c27Check(t *testing.T, r *vlib.Run, enc *jsonenc.Encoder, c c27Case) {
 		if strict {
 			vio("valid-object-decodes-to-nil", "", "valid object decodes to nil", b1)
 		} else {
-			r.Outcome(vx + ":decodes-to-nil")
+			r.Outcome(pf + vx + ":decodes-to-nil")
 		}
 
 		return
@@ -1391,7 +1435,7 @@ func c27Check(t *testing.T, r *vlib.Run, enc *jsonenc.Encoder, c c27Case) {
 
 		stable = false
 
-		r.Add("rejected_object_unstable."+kind+"."+ty, 1)
+		r.Add(pf+"rejected_object_unstable."+kind+"."+ty, 1)
 	}
 
 	if tx, ty2 := reflect.TypeOf(x), reflect.TypeOf(y); tx != ty2 {
@@ -1422,7 +1466,7 @@ func c27Check(t *testing.T, r *vlib.Run, enc *jsonenc.Encoder, c c27Case) {
 		ok = false
 	}
 
-	if vy == "panic" {
+	if vy == "panic" && plain {
 		// reachable from the wire: a peer can send these bytes
 		r.Add("isvalid_panics_on_decoded."+ty, 1)
 		r.Sample(map[string]any{"case": c.id, "isvalid_panic_on_decoded_document": vfxShort([]byte(dy))})
@@ -1446,7 +1490,8 @@ func c27Check(t *testing.T, r *vlib.Run, enc *jsonenc.Encoder, c c27Case) {
 		// luck. Encode the decoded object again a fixed number of times so that the
 		// verdict does not depend on the map iteration seed (miss probability for a
 		// two-member map: 2^-24).
-		for i := 0; i < 24; i++ {
+		// (map order does not depend on the variant: done for the plain case only)
+		for i := 0; i < 24 && plain; i++ {
 			b3, err := enc.Marshal(y)
 			if err != nil || bytes.Equal(b1, b3) {
 				continue
@@ -1468,9 +1513,9 @@ func c27Check(t *testing.T, r *vlib.Run, enc *jsonenc.Encoder, c c27Case) {
 
 	switch {
 	case stable:
-		r.Outcome(vx + ":roundtrip-ok")
+		r.Outcome(pf + vx + ":roundtrip-ok")
 	default:
-		r.Outcome(vx + ":stays-rejected,hash-or-bytes-not-stable")
+		r.Outcome(pf + vx + ":stays-rejected,hash-or-bytes-not-stable")
 	}
 
 	if strict && nested > 1 {
@@ -1478,9 +1523,9 @@ func c27Check(t *testing.T, r *vlib.Run, enc *jsonenc.Encoder, c c27Case) {
 	}
 
 	if strict {
-		r.Add("valid_roundtrips."+c.fam, 1)
+		r.Add(pf+"valid_roundtrips."+c.fam, 1)
 	} else {
-		r.Add("rejected_roundtrips."+c.fam, 1)
+		r.Add(pf+"rejected_roundtrips."+c.fam, 1)
 	}
 }
 
